@@ -363,7 +363,7 @@ def run(ctx):
                 ctx.oblige("C11|vendor|ctor-site|" + f["path"], allowed,
                            "VendorOperation is constructed outside its checked constructor, in " + f["path"], cfg=cfg, where=H.line(c))
         n = check_dispatch(ctx, F, cfg, spec)
-        ctx.floor("dispatch result sites", n, 10, cfg=cfg)
+        ctx.floor("dispatch result sites", n, 3, cfg=cfg)
         ctx.floor("Operation variants", len(adt["variants"]), 14, cfg=cfg)
         ctx.floor("recognised bytes", len(recognised), 75, cfg=cfg)
         if cfg == "k0":
